@@ -113,9 +113,51 @@ def one(ctx, rng, k):
                 probs.append(f'IBM export: samples beyond 2^-20 relative of the SGZ decode at {len(bad)} positions, first trace {bad[0][0]}')
     for p in probs:
         ctx.fail('exported SEG-Y: ' + p, desc)
+    format_correspondence(ctx, rng, sgz, desc)
+
+
+MODEL = {}
+
+
+def format_correspondence(ctx, rng, sgz, desc):
+    """K: Model/Export (format code read big-endian at bytes 3225-3226 of the stored file header; unknown codes fall back to
+    IBM with the field rewritten) vs the real exporter, also for codes segyio itself would not write"""
+    m = MODEL.get('m')
+    if m is None:
+        return
+    raw = bytearray(open(sgz, 'rb').read())
+    for code in (None, int(rng.choice([0, 2, 3, 8, 256, 1280, 261]))):
+        if code is not None:
+            raw[4096 + 3224: 4096 + 3226] = bytes([code >> 8, code & 255])
+        b0, b1 = raw[4096 + 3224], raw[4096 + 3225]
+        mod = ctx.path('fmt.sgz')
+        with open(mod, 'wb') as f:
+            f.write(raw)
+        exp = ctx.path('fmt.sgy')
+        ctx.stats['corr_requests'] += 1
+        ans = m.ask(f'export {b0} {b1}')
+        try:
+            with SgzConverter(mod) as c:
+                env.quiet(c.convert_to_segy, exp)
+            hb = open(exp, 'rb').read(3600)
+            with segyio.open(exp, strict=False) as f:
+                fmt = int(f.format)
+            real = f'{fmt} {hb[3224]} {hb[3225]}'
+        except Exception as e:  # noqa
+            real = f'{type(e).__name__}: {str(e)[:80]}'
+        if ans != real:
+            ctx.corr_fail('Model.Export', f'export {b0} {b1}', ans, real, dict(desc, patched_code=code))
 
 
 def run(ctx):
+    MODEL['m'] = core.Model()
+    try:
+        run_(ctx)
+    finally:
+        MODEL.pop('m').close()
+
+
+def run_(ctx):
     rng = gen.rng_for(ctx.seed, 'c06')
     for k in range(50 if ctx.quick else 900):
         one(ctx, rng, k)
